@@ -215,9 +215,15 @@ class FG:
         op, rhs = self.pick([("<<=", "17"), ("<<=", "7"), ("*=", "1000003"), ("*=", "3"), ("+=", "9223372036854775807"),
                              ("+=", "2147483647"), ("-=", "4611686018427387904"), ("*=", "-65536")])
         init = self.pick(["1", "1", "3", "2147483647", "-1"])
+        upd = "%s %s %s" % (acc, op, rhs)
+        if self.chance(2, 5):
+            # plain (not in-place) update through a binary operator; shift/bit-only forms included
+            self.tags.add("literal-accumulator:binop")
+            upd = "%s = %s" % (acc, self.pick(["{a} << 8", "({a} << 9) | 1", "({a} << 7) ^ ({a} >> 3)", "({a} << 13) & -2",
+                                                "{a} * 1000003", "{a} + 9223372036854775807", "({a} | 5) << 11"]).format(a=acc))
         if self.chance(1, 2):
-            return ["    %s = %s" % (acc, init), "    for %s in range(n):" % i, "        %s %s %s" % (acc, op, rhs)]
-        return ["    %s = %s" % (acc, init), "    %s = 0" % i, "    while %s < n:" % i, "        %s %s %s" % (acc, op, rhs),
+            return ["    %s = %s" % (acc, init), "    for %s in range(n):" % i, "        %s" % upd]
+        return ["    %s = %s" % (acc, init), "    %s = 0" % i, "    while %s < n:" % i, "        %s" % upd,
                 "        %s += 1" % i]
 
     def compound(self):
